@@ -231,9 +231,9 @@ Section Clean.
 
   (* ---------------------------------------------------------------- one whole assignment *)
 
-  Lemma take_one_rewrap : forall isptr u0 m fs g,
+  Lemma take_one_rewrap : forall isptr u0 m fs g, is_any u0 = false ->
     take_one env (rewrap isptr u0 (VStruct m fs)) g = take_field env m fs g.
-  Proof. intros [] u0 m fs g; reflexivity. Qed.
+  Proof. intros [] u0 m fs g H; simpl; rewrite ?H; reflexivity. Qed.
 
   Lemma take_field_ok : forall m fs g a,
     take_field env m fs g = Ok a ->
@@ -245,7 +245,7 @@ Section Clean.
   Qed.
 
   Lemma struct_case : forall t isptr u0 m fs f rest W ft x st b,
-    (forall v', any_enter t v' = v') -> (isptr = false -> u0 = TInt) ->
+    (forall v', any_enter t v' = v') -> (isptr = false -> u0 = TInt) -> is_any u0 = false ->
     (forall fs' W', W' <> [] -> ~ In [] W' -> fields_clean m fs' W' ->
                     clean t (rewrap isptr u0 (VStruct m fs')) W') ->
     assign_ih rest -> fields_clean m fs W -> fresh_for (f :: rest) W ->
@@ -254,17 +254,17 @@ Section Clean.
     exists v', assign env t (rewrap isptr u0 (VStruct m fs)) (f :: rest) x = Some v' /\
                assign_post t (rewrap isptr u0 (VStruct m fs)) (f :: rest) W st x v'.
   Proof.
-    intros t isptr u0 m fs f rest W ft x st b Hre Hu Hcl IH C Hf Hl He Hc.
+    intros t isptr u0 m fs f rest W ft x st b Hre Hu Hua Hcl IH C Hf Hl He Hc.
     destruct (struct_step m fs f rest W ft x st b IH C Hf Hl He Hc) as [a [Ha [Ca [Ra Fa]]]].
     exists (rewrap isptr u0 (VStruct m (ains f a fs))).
     split.
-    { rewrite (assign_rewrap env t isptr u0 m Hre Hu). unfold sstep. rewrite Hl, Ha. reflexivity. }
+    { rewrite (assign_rewrap env t isptr u0 m Hre Hu Hua). unfold sstep. rewrite Hl, Ha. reflexivity. }
     split; [|split].
     - apply Hcl; [discriminate | | exact Ca].
       intros [H|H]; [discriminate | exact (fresh_no_nil _ _ Hf H)].
-    - cbn [take_path]. rewrite take_one_rewrap. unfold take_field. rewrite Hl, aget_ains_same. simpl. exact Ra.
+    - cbn [take_path]. rewrite take_one_rewrap by exact Hua. unfold take_field. rewrite Hl, aget_ains_same. simpl. exact Ra.
     - intros q a0 Hcq Hr. destruct q as [|g qr]; [rewrite conflict_nil_r in Hcq; discriminate|].
-      cbn [take_path] in *. rewrite take_one_rewrap in *.
+      cbn [take_path] in *. rewrite !take_one_rewrap in * by exact Hua.
       destruct (take_field env m fs g) as [og| |] eqn:Etf; try discriminate. simpl in Hr.
       destruct (take_field_ok _ _ _ _ Etf) as [gt [Hlg Hog]].
       unfold take_field. rewrite Hlg.
